@@ -534,6 +534,9 @@ class RPCInterface:
         strategy_enum = self._get_starting_strategy(strategy)
         # check application name
         application = self._get_application(application_name)
+        # check application is managed
+        if not application.rules.managed:
+            self._raise(SupvisorsFaults.NOT_MANAGED.value, 'restart_application', application_name)
         # restart the application
         self.supvisors.stopper.restart_application(strategy_enum, application)
         in_progress = self.supvisors.stopper.in_progress() or self.supvisors.starter.in_progress()
